@@ -25,9 +25,13 @@ bool vp_deq(double a, double b);
 void vp_nothrow(bool on);               // while on: any C++ exception thrown is an assertion failure (and the path ends)        // scheduling point (RKCOMMON_VERIF hooks)
 }
 #ifdef VP_PATH
+extern "C" unsigned vp_fix(unsigned x);    // path engine: x made concrete, one path per feasible value (solver-enumerated)
+extern "C" void vp_sched(unsigned preemptions); // path engine: explore thread schedules with at most this many preemptions from here on
 extern "C" unsigned vp_pick(unsigned n);   // path engine: a value in [0,n), one path per value
 #else
 static inline unsigned vp_pick(unsigned n) { unsigned v = vp_nondet_u32(); vp_assume(v < n); return v; }
+static inline unsigned vp_fix(unsigned x) { return x; }
+static inline void vp_sched(unsigned) {}
 #endif
 static inline int vp_nondet_int() { return (int)vp_nondet_u32(); }
 static inline bool vp_nondet_bool() { return vp_nondet_u8() & 1; }
